@@ -376,8 +376,9 @@ func c08PosFor(r *Rng, sp c08Spec) int {
 // ---------------------------------------------------------------- random struct types (tree stream)
 
 type c08TreeGen struct {
-	r     *Rng
-	specs []c08Spec
+	r          *Rng
+	specs      []c08Spec
+	noRejected bool // only supported (kind, option) pairs
 }
 
 // field draws a field type with its tag options and a value, nested up to depth.
@@ -387,7 +388,7 @@ func (g *c08TreeGen) field(depth int) (ft *c08Ty, opts []string, v *c08Val) {
 	switch {
 	case depth <= 0 || x < 45:
 		sp := Pick(r, g.specs)
-		if r.Chance(4) {
+		if r.Chance(4) && !g.noRejected {
 			sp = Pick(r, c08RejectedSpecs)
 		}
 		return c08Leaf(sp.kind), []string{sp.at}, c08GenLeaf(r, sp.kind, sp.at)
@@ -746,7 +747,11 @@ func c08Gen(g *Gen) {
 	tg := &c08TreeGen{r: r, specs: specs}
 	for i, n := 0, g.N(2500, 80000); i < n; i++ {
 		st, sv := tg.structTy(r.Range(0, 3), r.Range(1, 5))
-		g.Case(c08Line("rt", st, sv.tokens()))
+		lines := []string{c08Line("rt", st, sv.tokens())}
+		for k := 0; k < 2 && r.Chance(50); k++ { // the same type again: the memoized description is used
+			lines = append(lines, c08Line("rt", st, tg.value(st, "").tokens()))
+		}
+		g.Case(lines...)
 	}
 	// (d) malformed / rejected: unsupported pairs, tag soup, over-deep nesting, odd shapes
 	for i, n := 0, g.N(1200, 30000); i < n; i++ {
